@@ -8,7 +8,12 @@
 
    and adding the glue that locate itself contains:
      * margin = max(radius, separation // 2 - 1, smoothing_size // 2) per axis (feature.py:386);
-     * image = raw_image, scale_factor = 1. (convert_to_int does nothing on integer images);
+     * image = raw_image.clip(min=0) (feature.py:371-376, the repair of F18: negative pixels of
+       a signed-integer image carry no brightness; the identity on unsigned images -- the model
+       has no dtype and always clips); maxima, refinement, mass, size, signal and the background
+       mask of measure_noise work on [image], raw_mass and the background statistics on
+       [raw_image], as in the code; scale_factor = 1. (convert_to_int does nothing on integer
+       images);
      * the engine switch (python: _refine; numba: the kernels, which divide by the mass);
      * the DataFrame row built from one refined feature (position, mass, size = sqrt(Rg^2), raw_mass);
      * measure_noise(image, raw_image, radius) (uncertainty.py:9-35), N_binary_mask,
@@ -68,6 +73,10 @@ Fixpoint zipmul (a b : list Q) : list Q :=
   | _, _ => []
   end.
 
+(* image.clip(min=0) *)
+Definition clip0 (im : image) : image :=
+  {| shape := shape im; data := arr_map (Z.max 0) (data im) |}.
+
 Section Pipe.
   Variable percentile : list Z -> Q.      (* np.percentile(not_black, percentile) *)
   Variable sqrtf : Q -> Q.                (* np.sqrt on a float64 *)
@@ -77,14 +86,15 @@ Section Pipe.
     grey_dilation percentile false im (l_sep L)
                   (Some (margins (l_radius L) (l_sep L) (l_smooth L))) false.
 
-  (* one feature; None = the numba kernel divided by a zero mass *)
-  Definition refine_one (L : lparams) (im : image) (start : list Z) : option output :=
+  (* one feature: refine_com(raw_image, image, radius, coords, ...); None = the numba
+     kernel divided by a zero mass *)
+  Definition refine_one (L : lparams) (im raw : image) (start : list Z) : option output :=
     if l_numba L
-    then match refine_numba (pix im) (pix im) (l_radius L) (shape im) shift_thresh (l_maxit L) (l_char L) start with
+    then match refine_numba (pix im) (pix raw) (l_radius L) (shape im) shift_thresh (l_maxit L) (l_char L) start with
          | KOk o => Some o
          | KDivZero => None
          end
-    else Some (refine_python (pix im) (pix im) (l_radius L) (shape im) shift_thresh (l_maxit L) (l_char L) start).
+    else Some (refine_python (pix im) (pix raw) (l_radius L) (shape im) shift_thresh (l_maxit L) (l_char L) start).
 
   (* the DataFrame row of the tail: positions, mass, size (isotropic: sqrt of the
      single Rg^2 column), raw_mass *)
@@ -132,24 +142,35 @@ Section Pipe.
     then [(hd 0%Q noise_size * hd 0%Q (coord_moments radius))%Q]
     else zipmul noise_size (coord_moments radius).
 
-  (* parameters of the tail as locate computes them *)
-  Definition tail_params (L : lparams) (im : image) : params :=
-    let nb := if l_char L then measure_noise im im (l_radius L) else (None, None) in
+  (* parameters of the tail as locate computes them:
+     black_level, noise = measure_noise(image, raw_image, radius) *)
+  Definition tail_params (L : lparams) (im raw : image) : params :=
+    let nb := if l_char L then measure_noise im raw (l_radius L) else (None, None) in
     mkparams (l_sep L) 1 (l_minmass L) (l_maxsize L) (l_topn L)
              (snd nb) (fst nb) (inject_Z (n_mask (l_radius L)))
              (if l_char L then ep_consts (l_radius L) (l_noise_size L) else []).
 
   (* ---- locate ---- *)
-  Definition locate (L : lparams) (im : image) : option (list (lrow * list fval)) :=
+  (* everything after "image = ..." : [im] is the image the maxima are found and refined
+     on, [raw] the raw image *)
+  Definition locate_on (L : lparams) (im raw : image) : option (list (lrow * list fval)) :=
     if negb (isotropic (l_radius L)) && is_some (l_maxsize L) then None      (* ValueError *)
     else
-      match all_some (map (refine_one L im) (maxima L im)) with
+      match all_some (map (refine_one L im raw) (maxima L im)) with
       | None => None                                                          (* division by zero mass *)
       | Some [] => Some []                                                    (* len(refined_coords) == 0 *)
       | Some outs =>
           if negb (l_char L) && is_some (l_maxsize L) then None               (* KeyError: 'size' *)
-          else Some (tail (tail_params L im) (map row_of outs))
+          else Some (tail (tail_params L im raw) (map row_of outs))
       end.
+
+  (* locate(raw_image, ..., preprocess=False) as it is now *)
+  Definition locate (L : lparams) (raw : image) : option (list (lrow * list fval)) :=
+    locate_on L (clip0 raw) raw.
+
+  (* the code before 7e846f3 (F18): image = raw_image, negative pixels included *)
+  Definition locate_without_clip (L : lparams) (raw : image) : option (list (lrow * list fval)) :=
+    locate_on L raw raw.
 End Pipe.
 
 (* ---- the property's words ---- *)
